@@ -122,13 +122,17 @@ def execute(case: dict) -> dict:
                     resp.content_length = len(resp_body)
                 await resp.prepare(request)
                 k = rs.get("writes", 2)
+                last = b""
                 if not (empty or request.method == "HEAD"):
                     step = max(1, -(-len(resp_body) // max(1, k)))
-                    for i in range(0, len(resp_body), step):
-                        await resp.write(resp_body[i:i + step])
+                    pieces = [resp_body[i:i + step] for i in range(0, len(resp_body), step)]
+                    if rs.get("eof_data") and pieces:
+                        last = pieces.pop()  # the final piece is handed to write_eof(data)
+                    for piece in pieces:
+                        await resp.write(piece)
                         if rs.get("yield_between"):
                             await asyncio.sleep(0)
-                await resp.write_eof()
+                await resp.write_eof(last)
             return resp
 
         box: dict = {}
@@ -414,7 +418,7 @@ def cases(draw):
         "headers": draw(st.lists(st.tuples(st.sampled_from(HDR_NAMES), st.sampled_from(HDR_VALUES[:3] + ["a,b"])), max_size=3)),
         "set_cookies": draw(st.sampled_from([[], [], [("s1", "v1")], [("s1", "v1"), ("s2", "v2")]])),
         "compress": draw(st.integers(0, 3)) == 0, "chunked": draw(st.integers(0, 3)) == 0, "force_close": draw(st.integers(0, 5)) == 0,
-        "writes": draw(st.integers(0, 6)), "declare_length": draw(st.booleans()), "yield_between": draw(st.booleans()),
+        "writes": draw(st.integers(0, 6)), "declare_length": draw(st.booleans()), "yield_between": draw(st.booleans()), "eof_data": draw(st.booleans()),
     }
     if kind == "file":
         rs["status"] = 200  # FileResponse chooses 206/304/416 itself from the request headers
